@@ -37,6 +37,16 @@ type Case struct {
 	Progs   []string `json:"progs"`
 	Init    string   `json:"init"`    // "-" or "<gen>:<owner>:+|-" (pre-seeded record)
 	Missing string   `json:"missing"` // how a failed If-Match on a missing object is answered: "404" | "412"
+	// Owners: the Owner strings of the instances: "d" (or "") distinct, "s" all the same, "e" all empty.
+	// Who holds the lease is a matter of the instance, never of the Owner string.
+	Owners string `json:"owners,omitempty"`
+}
+
+func (c Case) owners() string {
+	if c.Owners == "" {
+		return "d"
+	}
+	return c.Owners
 }
 
 type Replay struct {
@@ -49,7 +59,7 @@ func (c Case) line(sched []int) string {
 	for i, x := range sched {
 		s[i] = fmt.Sprint(x)
 	}
-	return fmt.Sprintf("lease N=%d INIT=%s M=%s P=%s S=%s", len(c.Progs), c.Init, c.Missing, strings.Join(c.Progs, ";"), strings.Join(s, ","))
+	return fmt.Sprintf("lease N=%d L=%s INIT=%s M=%s P=%s S=%s", len(c.Progs), c.owners(), c.Init, c.Missing, strings.Join(c.Progs, ";"), strings.Join(s, ","))
 }
 
 func (c Case) size() int {
@@ -65,13 +75,47 @@ func (c Case) size() int {
 const ttl = time.Hour
 const seedOwner = 9
 
-func ownerName(i int) string { return fmt.Sprintf("c%d", i) }
-func ownerID(s string) string {
-	if s == "" {
-		return "-"
+const sameOwner, emptyOwner = 7, 8
+
+// ownerString: the Owner label with model number o.
+func ownerString(o int) string {
+	switch o {
+	case seedOwner:
+		return "seed"
+	case sameOwner:
+		return "same"
+	case emptyOwner:
+		return ""
 	}
-	if s == "seed" {
+	return fmt.Sprintf("c%d", o)
+}
+
+// ownerOf: the Owner string instance i is configured with under the given mode.
+func ownerOf(mode string, i int) string {
+	switch mode {
+	case "s":
+		return ownerString(sameOwner)
+	case "e":
+		return ownerString(emptyOwner)
+	}
+	return ownerString(i)
+}
+
+func inst(i int) string {
+	if i < 0 {
+		return "an earlier incarnation"
+	}
+	return fmt.Sprintf("instance %d", i)
+}
+
+func ownerID(s string) string {
+	switch s {
+	case "":
+		return "-"
+	case "seed":
 		return fmt.Sprint(seedOwner)
+	case "same":
+		return fmt.Sprint(sameOwner)
 	}
 	return strings.TrimPrefix(s, "c")
 }
@@ -101,7 +145,7 @@ type world struct {
 	log        []string
 	// oracle state
 	haveLast     bool
-	lastOwner    string
+	lastWriter   int // instance that wrote the stored / last stored record, -1 = pre-seeded
 	lastGen      int64
 	deletedSince bool
 	viol         map[string]string // signature -> what
@@ -189,23 +233,24 @@ func (w *world) PutObject(ctx context.Context, in *s3.PutObjectInput, _ ...func(
 	if w.exists {
 		var old litestream.Lease
 		_ = json.Unmarshal(w.body, &old)
-		if old.Owner != rec.Owner && !old.IsExpired() {
-			w.violate("C20/overwrote-live-lease", fmt.Sprintf("%s replaced the unexpired lease of %s (generation %d) by a %s", rec.Owner, old.Owner, old.Generation, w.cur[c].kind))
+		// all judged by INSTANCE (which client wrote the stored record), never by the Owner string
+		if w.lastWriter != c && !old.IsExpired() {
+			w.violate("C20/overwrote-live-lease", fmt.Sprintf("%s replaced the unexpired lease (generation %d, owner %q) written by %s, by a %s", inst(c), old.Generation, old.Owner, inst(w.lastWriter), w.cur[c].kind))
 		}
-		if w.cur[c].kind == "renew" && w.cur[c].leaseETag != w.etag {
-			w.violate("C20/superseded-renew-succeeded", fmt.Sprintf("renew by %s succeeded although the stored record is no longer its lease", rec.Owner))
+		if w.cur[c].kind == "renew" && (w.cur[c].leaseETag != w.etag || w.lastWriter != c) {
+			w.violate("C20/superseded-renew-succeeded", fmt.Sprintf("renew by %s succeeded over the record written by %s", inst(c), inst(w.lastWriter)))
 		}
 	} else if w.cur[c].kind == "renew" {
-		w.violate("C20/superseded-renew-succeeded", fmt.Sprintf("renew by %s succeeded although the lease object is gone", rec.Owner))
+		w.violate("C20/superseded-renew-succeeded", fmt.Sprintf("renew by %s succeeded although the lease object is gone", inst(c)))
 	}
-	if w.haveLast && w.lastOwner != rec.Owner && rec.Generation <= w.lastGen {
+	if w.haveLast && w.lastWriter != c && rec.Generation <= w.lastGen {
 		if w.deletedSince && rec.Generation == 1 {
-			w.violate("C20/generation-reset-after-release", fmt.Sprintf("owner %s acquired generation %d after owner %s held generation %d and released", rec.Owner, rec.Generation, w.lastOwner, w.lastGen))
+			w.violate("C20/generation-reset-after-release", fmt.Sprintf("%s acquired generation %d after %s held generation %d and released", inst(c), rec.Generation, inst(w.lastWriter), w.lastGen))
 		} else {
-			w.violate("C20/generation-not-increasing", fmt.Sprintf("owner %s wrote generation %d after owner %s wrote generation %d", rec.Owner, rec.Generation, w.lastOwner, w.lastGen))
+			w.violate("C20/generation-not-increasing", fmt.Sprintf("%s wrote generation %d after %s wrote generation %d", inst(c), rec.Generation, inst(w.lastWriter), w.lastGen))
 		}
 	}
-	w.haveLast, w.lastOwner, w.lastGen, w.deletedSince = true, rec.Owner, rec.Generation, false
+	w.haveLast, w.lastWriter, w.lastGen, w.deletedSince = true, c, rec.Generation, false
 	w.exists, w.body, w.etag = true, data, etagOf(data)
 	w.writes = append(w.writes, w.etag)
 	et := w.etag
@@ -229,8 +274,8 @@ func (w *world) DeleteObject(ctx context.Context, in *s3.DeleteObjectInput, _ ..
 	if err != nil {
 		return nil, err
 	}
-	if w.exists && w.cur[c].leaseETag != w.etag {
-		w.violate("C20/superseded-release-succeeded", fmt.Sprintf("release by %s deleted a record that is not its lease", ownerName(c)))
+	if w.exists && (w.cur[c].leaseETag != w.etag || w.lastWriter != c) {
+		w.violate("C20/superseded-release-succeeded", fmt.Sprintf("release by %s deleted the record written by %s", inst(c), inst(w.lastWriter)))
 	}
 	if w.exists {
 		w.deletedSince = true
@@ -336,14 +381,11 @@ func runCase(c Case, prefix []int) outcome {
 		if sg == "-" {
 			exp = time.Now().Add(-ttl)
 		}
-		owner := "seed"
-		if o != seedOwner {
-			owner = ownerName(o)
-		}
+		owner := ownerString(o)
 		b, _ := json.Marshal(&litestream.Lease{Generation: int64(g), ExpiresAt: exp, Owner: owner})
 		w.exists, w.body, w.etag = true, b, etagOf(b)
 		w.writes[0] = w.etag
-		w.haveLast, w.lastOwner, w.lastGen = true, owner, int64(g)
+		w.haveLast, w.lastWriter, w.lastGen = true, -1, int64(g)
 	}
 	clients := make([]*client, n)
 	const finished = -1
@@ -351,7 +393,7 @@ func runCase(c Case, prefix []int) outcome {
 		l := lss3.NewLeaser()
 		l.SetLogger(quiet)
 		l.SetClient(w)
-		l.Bucket, l.Path, l.Owner = "b", "", ownerName(i)
+		l.Bucket, l.Path, l.Owner = "b", "", ownerOf(c.owners(), i)
 		clients[i] = &client{id: i, l: l}
 		w.grant = append(w.grant, make(chan struct{}))
 	}
@@ -384,11 +426,11 @@ func runCase(c Case, prefix []int) outcome {
 		var hs []string
 		for _, cl := range clients {
 			if state[cl.id] != 0 && cl.holds() {
-				hs = append(hs, ownerName(cl.id))
+				hs = append(hs, inst(cl.id))
 			}
 		}
 		if len(hs) > 1 {
-			w.violate("C20/mutex-two-holders", "clients "+strings.Join(hs, " and ")+" both hold an unexpired lease")
+			w.violate("C20/mutex-two-holders", strings.Join(hs, " and ")+" both hold an unexpired lease (owner strings: "+c.owners()+")")
 		}
 	}
 	checkMutex()
@@ -501,7 +543,7 @@ type found struct {
 func main() {
 	o := hx.ParseFlags("C20")
 	res := hx.NewResult(o, "c20: real s3.Leaser vs in-memory conditional S3, all request-level interleavings, vs Lean lease model + C20 oracle")
-	res.Rule = "a case = programs of 2-3 clients over {acquire, renew, release} x {live, born-expired TTL} x pre-seeded record {none, live, expired} x missing-object answer {404, 412}; every interleaving of the clients' S3 requests is run (depth-first, each schedule once); non-trivial = at least two clients issue a request; distinct = canonical schedule line"
+	res.Rule = "a case = programs of 2-3 clients (instances) over {acquire, renew, release} x {live, born-expired TTL} x Owner strings {distinct, all the same, all empty} x pre-seeded record {none, live, expired; foreign or same Owner string} x missing-object answer {404, 412}; every interleaving of the clients' S3 requests is run (depth-first, each schedule once); non-trivial = at least two clients issue a request; distinct = canonical schedule line"
 	if o.Replay != "" {
 		replay(o)
 		return
@@ -510,7 +552,9 @@ func main() {
 	full5 := []string{"a+", "a-", "r+", "r-", "x"}
 	inits := []string{"-", "3:9:+", "3:9:-"}
 	var cases []Case
-	add := func(ps []string, init, missing string) { cases = append(cases, Case{Progs: ps, Init: init, Missing: missing}) }
+	add := func(ps []string, init, missing string) {
+		cases = append(cases, Case{Progs: ps, Init: init, Missing: missing})
+	}
 
 	// corpus first
 	var corpus []Replay
@@ -539,6 +583,15 @@ func main() {
 				add([]string{a, b}, in, "404")
 			}
 			add([]string{a, b}, "-", "412")
+			// the same programs run by instances sharing one Owner string / leaving it empty; the
+			// pre-seeded record is an expired one of an earlier incarnation with that same Owner string
+			for _, m := range []struct {
+				mode string
+				own  int
+			}{{"s", sameOwner}, {"e", emptyOwner}} {
+				cases = append(cases, Case{Progs: []string{a, b}, Init: "-", Missing: "404", Owners: m.mode})
+				cases = append(cases, Case{Progs: []string{a, b}, Init: fmt.Sprintf("3:%d:-", m.own), Missing: "404", Owners: m.mode})
+			}
 		}
 	}
 	// B: 2 clients, length-3 programs, one TTL sign per client
@@ -563,7 +616,7 @@ func main() {
 	for i, a := range p3 {
 		for _, b := range p3[i:] {
 			for _, in := range inits {
-				b3 = append(b3, Case{Progs: []string{a, b}, Init: in, Missing: []string{"404", "412"}[(i+len(b3))%2]})
+				b3 = append(b3, Case{Progs: []string{a, b}, Init: in, Missing: []string{"404", "412"}[(i+len(b3))%2], Owners: []string{"d", "s", "e"}[(i+len(b3)/3)%3]})
 			}
 		}
 	}
@@ -573,7 +626,7 @@ func main() {
 	for i, a := range pc {
 		for j, b := range pc[i:] {
 			for _, cc := range pc[i+j:] {
-				c3 = append(c3, Case{Progs: []string{a, b, cc}, Init: inits[(i+j+len(c3))%3], Missing: "404"})
+				c3 = append(c3, Case{Progs: []string{a, b, cc}, Init: inits[(i+j+len(c3))%3], Missing: "404", Owners: []string{"d", "s", "e"}[(j+len(c3)/3)%3]})
 			}
 		}
 	}
@@ -637,6 +690,7 @@ func main() {
 				res.Count(fmt.Sprintf("clients:%d", len(c.Progs)))
 				res.Count("init:" + map[bool]string{true: "none", false: "seeded"}[c.Init == "-"])
 				res.Count("missing-as:" + c.Missing)
+				res.Count("owners:" + c.owners())
 				for i, oc := range outs {
 					active := map[byte]bool{}
 					for _, e := range strings.Split(strings.TrimPrefix(strings.Fields(oc.impl)[0], "R="), ",") {
